@@ -5,6 +5,9 @@ Case (integers; <str> = len bytes), mirrored by coq/C14/Model.v run_ops and harn
   2 <name> i                         addAlias(name, begin()+min(i,size))
   3 g (<cap> n (<name> alias)*)*     add(other context built from g groups)
   4 <key> t | 5 <key> t | 6 <key> t m    find / tryFind / findImpl
+  7 <key> short allow entry          the name resolved by a real PARSER (DefaultContext::getOption): entry % 4 = 0 parseCommandLine, 1 parseCommandArray,
+                                     2 parseCommandString, 3 parseCfgFile; token "--key=1" / "-c1" / line "key = 1"; allow = allowUnregistered
+  8 n (<key> short)^n allow entry    n names resolved within ONE run of a real parser (one DefaultContext): token j = "--key=j" / "-cj" / line "key = j"
 The oracle is independent of the Coq model: it keeps the plain LIST OF OPTIONS (name, alias, extra alias names) that the
 calls were meant to build, computes the set of matching options by brute force over that list (no index, no order) and
 judges every observation of the implementation, including which additions must be refused and the final index dump.
@@ -65,6 +68,20 @@ def decode(c):
                 k, p = _str(c, p)
                 ops.append((6, k, c[p], c[p + 1]))
                 p += 2
+            elif o == 7:
+                k, p = _str(c, p)
+                ops.append((7, k, c[p], c[p + 1], c[p + 2]))
+                p += 3
+            elif o == 8:
+                n = c[p]
+                p += 1
+                toks = []
+                for _ in range(n):
+                    k, p = _str(c, p)
+                    toks.append((k, c[p]))
+                    p += 1
+                ops.append((8, toks, c[p], c[p + 1]))
+                p += 2
             else:
                 break
     except IndexError:
@@ -98,6 +115,13 @@ def encode(ops):
             e += [o[0]] + _estr(o[1]) + [o[2]]
         elif o[0] == 6:
             e += [6] + _estr(o[1]) + [o[2], o[3]]
+        elif o[0] == 7:
+            e += [7] + _estr(o[1]) + [o[2], o[3], o[4]]
+        elif o[0] == 8:
+            e += [8, len(o[1])]
+            for k, sh in o[1]:
+                e += _estr(k) + [sh]
+            e += [o[2], o[3]]
     return e
 
 
@@ -120,7 +144,28 @@ def describe(c):
             out.append('tryFind(%r,%d)' % (_s(o[1]), o[2]))
         elif o[0] == 6:
             out.append('findImpl(%r,%d,%d)' % (_s(o[1]), o[2], o[3]))
+        elif o[0] == 7:
+            e = o[4] % 4
+            short = o[2] != 0 and e != 3
+            out.append('%s(%s, allowUnregistered=%s)' % (ENTRY[e], ('"%s = 1"' if e == 3 else '"-%s1"' if short else '"--%s=1"') % _s(o[1]), 'true' if o[3] else 'false'))
+        elif o[0] == 8:
+            e = o[3] % 4
+            if e == 3:
+                body = '\\n'.join('%s = %d' % (_s(k), j + 1) for j, (k, sh) in enumerate(o[1]))
+            else:
+                body = ' '.join(('-%s%d' if sh else '--%s=%d') % (_s(k), j + 1) for j, (k, sh) in enumerate(o[1]))
+            out.append('%s("%s", allowUnregistered=%s)' % (ENTRY[e], body, 'true' if o[2] else 'false'))
     return ' '.join(out)
+
+
+ENTRY = ['parseCommandLine', 'parseCommandArray', 'parseCommandString', 'parseCfgFile']
+
+
+def spellable(key, short):
+    """a key the harness can hand to a parser as one token"""
+    if not key or key[0] in (DASH, 35) or any(b < 33 or b > 126 or b in (34, 39, 61, 92) for b in key):
+        return False
+    return len(key) == 1 if short else True
 
 
 # ------------------------------------------------------------------------------------------------ reference
@@ -233,6 +278,69 @@ def check_cands(ref, key, t, ms, cands):
     return covered == set(ms)
 
 
+def oracle_seq(ref, o, rd):
+    """Several names resolved within ONE parser run.  What is demanded (independent of the model): every token resolves exactly as it would
+    if it were the only token - by the options that match ITS key in ITS lookup mode (alias lookup for -c, name-or-prefix for --key / a config
+    line), whatever was looked up before it: the options found are returned in token order with the token's value; a key that matches nothing
+    is left alone with allowUnregistered and UnknownOption otherwise; a key that matches several options is AmbiguousOption; the first such
+    error ends the parse."""
+    toks, allow, entry = o[1], o[2] != 0, o[3] % 4
+    r = rd.num()
+    got, cands = None, None
+    if r == 0:
+        got = []
+        for _ in range(rd.num()):
+            j = rd.num()
+            got.append((j, rd.num()))
+    elif r == 2:
+        cands = rd.cands()
+    modes = [(k, (sh != 0 and entry != 3)) for k, sh in toks]
+    if (r == 7) != (not all(spellable(k, sh) for k, sh in modes)):
+        return 'parser-sequence-skipped-or-not-skipped-wrongly'
+    if r == 7:
+        return None
+    if not ref.in_domain() or not all(key_in_claim(k, FIND_ALIAS if sh else FIND_NOP) for k, sh in modes):
+        return None
+    want, err = [], None
+    for j, (k, sh) in enumerate(modes):
+        t = FIND_ALIAS if sh else FIND_NOP
+        ms = ref.matches(k, t)
+        if len(ms) == 1:
+            want.append((j + 1, ms[0]))
+        elif not ms:
+            if not allow:
+                err = (1, j, k, t, ms)
+                break
+        else:
+            err = (2, j, k, t, ms)
+            break
+    if err is None:
+        if r != 0:
+            return 'parser-sequence-every-key-resolvable-but-parse-%s' % {1: 'reported-unknown-option', 2: 'reported-ambiguous-option'}.get(r, 'failed')
+        if got != want:
+            gd, wd = dict(got), dict(want)
+            for j, (k, sh) in enumerate(modes):
+                if gd.get(j + 1) != wd.get(j + 1):
+                    prev = [q for q in range(j) if modes[q][0] == k and modes[q][1] != sh]
+                    if prev and gd.get(j + 1) is not None and gd.get(j + 1) == gd.get(prev[-1] + 1):
+                        return 'parser-sequence-key-resolved-to-the-option-of-the-previous-lookup-of-the-same-string-in-another-mode'
+                    if wd.get(j + 1) is None:
+                        return 'parser-sequence-key-that-matches-nothing-resolved-to-an-option'
+                    if gd.get(j + 1) is None:
+                        return 'parser-sequence-key-of-one-option-not-resolved'
+                    return 'parser-sequence-key-resolved-to-another-option-than-alone'
+            return 'parser-sequence-values-out-of-order-or-duplicated'
+        return None
+    cls, j, k, t, ms = err
+    if r == 0:
+        return 'parser-sequence-%s-key-accepted' % ('unknown' if cls == 1 else 'ambiguous')
+    if r != cls:
+        return 'parser-sequence-%s-key-reported-as-%s' % ('unknown' if cls == 1 else 'ambiguous', {1: 'unknown', 2: 'ambiguous'}.get(r, 'failure'))
+    if cls == 2 and not check_cands(ref, k, t, ms, cands):
+        return 'ambiguous-candidates-are-not-the-matching-options'
+    return None
+
+
 def oracle(c, obs):
     ops = decode(c)
     ref = Ref()
@@ -268,6 +376,48 @@ def oracle(c, obs):
                     break
                 if exp is not None and r != 1:
                     sig.append('taken-name-not-refused')
+                    break
+                continue
+            if o[0] == 7:
+                # DefaultContext::getOption behind every parser entry point: the error policy differs from find() in ONE point only -
+                # with allowUnregistered a key that matches NO option is left alone instead of UnknownOption.  A key that matches SEVERAL
+                # options is ambiguous in every lookup mode, through every entry point, with allowUnregistered on and off.
+                key, allow, entry = o[1], o[3] != 0, o[4] % 4
+                short = o[2] != 0 and entry != 3
+                r = rd.num()
+                cands = rd.cands() if r == 2 else None
+                i = rd.num() if r in (0, 8) else None
+                if (r == 7) != (not spellable(key, short)):
+                    sig.append('parser-lookup-skipped-or-not-skipped-wrongly')
+                    break
+                if r == 7:
+                    continue
+                t = FIND_ALIAS if short else FIND_NOP
+                if not (key_in_claim(key, t) and ref.in_domain()):
+                    continue
+                ms = ref.matches(key, t)
+                got = {0: 'resolved-to-one-option', 1: 'reported-unknown', 2: 'reported-ambiguous', 3: 'left-alone-as-unregistered'}.get(r, 'failed')
+                if len(ms) > 1:
+                    if r == 0 and allow:
+                        sig.append('ambiguous-prefix-accepted-with-allow-unregistered')
+                    elif r != 2:
+                        sig.append('parser-lookup-several-options-match-but-key-%s' % got)
+                    elif not check_cands(ref, key, t, ms, cands):
+                        sig.append('ambiguous-candidates-are-not-the-matching-options')
+                elif len(ms) == 1:
+                    if r != 0:
+                        sig.append('parser-lookup-one-option-matches-but-key-%s' % got)
+                    elif i != ms[0]:
+                        sig.append('parser-lookup-returned-the-wrong-option')
+                elif r != (3 if allow else 1):
+                    sig.append('parser-lookup-no-option-matches-but-key-%s' % got)
+                if sig:
+                    break
+                continue
+            if o[0] == 8:
+                sg = oracle_seq(ref, o, rd)
+                if sg:
+                    sig.append(sg)
                     break
                 continue
             key, t = o[1], o[2]
@@ -350,7 +500,7 @@ def oracle(c, obs):
 def nontrivial(c, obs):
     ops = decode(c)
     n = sum(len(o[1][1]) for o in ops if o[0] == 1) + sum(len(g[1]) for o in ops if o[0] == 3 for g in o[1])
-    return n >= 2 and any(o[0] in (4, 5, 6) for o in ops)
+    return n >= 2 and any(o[0] in (4, 5, 6, 7, 8) for o in ops)
 
 
 # ------------------------------------------------------------------------------------------------ generation
@@ -390,16 +540,59 @@ def keys_for(rnd, ref_names, aliases, alpha, n):
     return ks
 
 
-def lookups(rnd, ks):
+def parser_op(rnd, k, t, p_allow=0.6):
+    return (7, k, 1 if t == FIND_ALIAS else 0, 1 if rnd.random() < p_allow else 0, rnd.randrange(4))
+
+
+def lookups(rnd, ks, p_parser=0.25):
     ops = []
     for k, t in ks:
         q = rnd.random()
-        if q < 0.45:
+        if rnd.random() < p_parser and t in (FIND_NOP, FIND_ALIAS) and spellable(k[-1:] if t == FIND_ALIAS else k, t == FIND_ALIAS):
+            ops.append(parser_op(rnd, k[-1:] if t == FIND_ALIAS else k, t))
+        elif q < 0.45:
             ops.append((4, k, t))
         elif q < 0.7:
             ops.append((5, k, t))
         else:
             ops.append((6, k, t, rnd.choice([0, 1, 2, 3, 3, 2 ** 32 - 1])))
+    return ops
+
+
+def seq_ops(rnd, ns, al, nseq):
+    """op 8: 2..6 names resolved within ONE parser run.  Aimed at state carried from one lookup to the next: the SAME key string under different
+    lookup modes next to each other (-c then --c, --c then -c), with another token in between (control), the same mode twice (control), a key
+    that is an alias character AND the unique prefix / the exact name of another option / a prefix of nothing / an ambiguous prefix, repeated
+    keys, allowUnregistered on and off, all four entry points."""
+    ops = []
+    one = sorted({nm[0] for nm in ns if spellable(nm[:1], True)})                # first letters of names
+    achars = sorted({a for a in al if spellable([a], True)})
+    chars = sorted(set(one) | set(achars)) or [120]
+    for _ in range(nseq):
+        toks = []
+        for _ in range(rnd.choice([1, 1, 1, 2, 2, 3])):
+            q = rnd.random()
+            ch = rnd.choice(achars) if (achars and q < 0.6) else rnd.choice(chars) if q < 0.9 else rnd.choice([113, 122, 120])
+            shape = rnd.choice(['sl', 'ls', 'sl', 'ls', 'sxl', 'lxs', 'ss', 'll', 'sls', 'lsl', 'sL', 'Ls'])
+            other = None
+            if ns and rnd.random() < 0.8:
+                nm = rnd.choice(ns)
+                other = list(nm[:rnd.randint(1, len(nm))])
+            for x in shape:
+                if x == 's':
+                    toks.append(([ch], 1))
+                elif x == 'l':
+                    toks.append(([ch], 0))
+                elif x in 'LS':                     # a longer key that starts with the character
+                    cand = [nm for nm in ns if nm[:1] == [ch] and len(nm) > 1]
+                    toks.append((list(rnd.choice(cand)) if cand else [ch, 97], 0))
+                elif other and spellable(other, False):
+                    toks.append((other, 0))
+                elif achars:
+                    toks.append(([rnd.choice(achars)], 1))
+        toks = [(k, sh) for k, sh in toks if spellable(k, sh != 0)][:7]
+        if toks:
+            ops.append((8, toks, 1 if rnd.random() < 0.45 else 0, rnd.choice([0, 1, 2, 2, 3])))
     return ops
 
 
@@ -421,7 +614,7 @@ def gen_one(rnd, kind, nkeys):
     AB = [97, 98]
     alpha = {'shared-prefixes': AB, 'prefix-chain': [97], 'boundary-bytes': [97, 1, 126, 125, 2],
              'alias-clash': [97, 98, 99], 'merge': AB + [99], 'alias-names': AB + [110], 'high-bytes': [97, 127, 128, 255, 126],
-             'dash-inside': [97, 45, 98]}[kind]
+             'dash-inside': [97, 45, 98], 'parser': [104, 101, 108, 112, 117], 'parser-seq': [120, 118, 113, 97]}[kind]
     ops = []
     caps = [[], [71], [72]]
     aliases = [0, 0, 0, 120, 121, 122, 97]
@@ -452,6 +645,42 @@ def gen_one(rnd, kind, nkeys):
             ops.append((1, (rnd.choice(caps), os_)))
             if rnd.random() < 0.3:
                 ops += lookups(rnd, [([120], 4), ([DASH, 121], 4), ([97], 4)])
+    elif kind == 'parser':
+        # names as a program has them: sharing prefixes (help / heuristic), exact names that are prefixes of others (he / help, opt / option /
+        # options), alias names (addAlias) that share prefixes with names; looked up through the parsers, allowUnregistered on and off
+        words = [S(w) for w in ('help', 'heuristic', 'he', 'hel', 'heu', 'number', 'num', 'nu', 'n', 'opt', 'option', 'options', 'opt-x',
+                                'no-opt', 'h', 'verbose', 'version', 'v', 'quiet')]
+        pool = rnd.sample(words, rnd.randint(2, 7)) + [mkname() for _ in range(rnd.randint(0, 2))]
+        rnd.shuffle(pool)
+        cut = rnd.randint(1, len(pool))
+        for part in (pool[:cut], pool[cut:]):
+            if part:
+                ops.append((1, (rnd.choice(caps), [(nm, rnd.choice([0, 0, 104, 110, 118, 120])) for nm in part])))
+        for _ in range(rnd.randint(0, 3)):
+            base = rnd.choice(pool)
+            an = rnd.choice([base[:rnd.randint(1, len(base))] + [rnd.choice(alpha)], rnd.choice(words), S('hilfe'), base + [rnd.choice(alpha)]])
+            ops.append((2, an, rnd.randrange(len(pool) + 1)))
+    elif kind == 'parser-seq':
+        # alias characters that are also the first letter / the unique prefix / the exact one-letter name of ANOTHER option, or the prefix of nothing
+        words = [S(w) for w in ('foo', 'x-ray', 'xy', 'verbose', 'version', 'v', 'silent', 'quiet', 'q', 'x', 'help', 'heuristic', 'h', 'number', 'n', 'a', 'all')]
+        pool = rnd.sample(words, rnd.randint(2, 7)) + [mkname() for _ in range(rnd.randint(0, 2))]
+        rnd.shuffle(pool)
+        letters = sorted({nm[0] for nm in pool}) + [120, 118, 113, 104, 110, 122]
+        used, os_ = set(), []
+        for nm in pool:
+            a = 0
+            if rnd.random() < 0.65:
+                cand = [ch for ch in letters if ch not in used and (ch != nm[0] or rnd.random() < 0.3)]
+                if cand:
+                    a = rnd.choice(cand)
+                    used.add(a)
+            os_.append((nm, a))
+        cut = rnd.randint(1, len(os_))
+        for part in (os_[:cut], os_[cut:]):
+            if part:
+                ops.append((1, (rnd.choice(caps), part)))
+        if rnd.random() < 0.3:
+            ops.append((2, rnd.choice([S('xx'), S('vv'), S('q2'), mkname()]), rnd.randrange(len(os_))))
     elif kind == 'merge':
         for _ in range(rnd.randint(1, 3)):
             if rnd.random() < 0.5:
@@ -482,11 +711,26 @@ def gen_one(rnd, kind, nkeys):
         if rnd.random() < 0.3:
             ops.append((2, mkname(), rnd.randint(0, 4)))
     ns, al = all_names(ops)
+    if kind == 'parser':
+        ks = keys_for(rnd, ns, al, alpha, nkeys)
+        ks += [(rnd.choice([S('x'), S('zz'), S('helq'), S('q'), rnd.choice(ns) + S('q')]), FIND_NOP) for _ in range(3)]     # prefixes of nothing
+        ks += [(list(nm), FIND_NOP) for nm in ns if any(x != nm and x[:len(nm)] == nm for x in ns)][:4]                       # exact names that are prefixes of others
+        amb = sorted({tuple(nm[:j]) for nm in ns for j in range(1, len(nm) + 1) if sum(1 for x in ns if x[:j] == nm[:j]) > 1})
+        ks += [(list(rnd.choice(amb)), FIND_NOP) for _ in range(8)] if amb else []                                             # shared prefixes
+        rnd.shuffle(ks)
+        ops += lookups(rnd, ks, 0.9)
+        return encode(ops)
+    if kind == 'parser-seq':
+        ops += seq_ops(rnd, ns, al, rnd.randint(3, 8))
+        ops += lookups(rnd, keys_for(rnd, ns, al, alpha, 4), 0.5)
+        return encode(ops)
     ops += lookups(rnd, keys_for(rnd, ns, al, alpha, nkeys))
+    if rnd.random() < 0.25:
+        ops += seq_ops(rnd, ns, al, rnd.randint(1, 3))
     return encode(ops)
 
 
-KINDS = ['shared-prefixes', 'prefix-chain', 'boundary-bytes', 'alias-clash', 'merge', 'alias-names', 'alias-names', 'dash-inside', 'high-bytes']
+KINDS = ['shared-prefixes', 'prefix-chain', 'boundary-bytes', 'alias-clash', 'merge', 'alias-names', 'alias-names', 'dash-inside', 'high-bytes', 'parser', 'parser', 'parser-seq', 'parser-seq']
 
 
 def S(s):
@@ -503,6 +747,20 @@ def fixed_cases():
     out.append((encode([(1, ([], [(S('help'), 104), (S('help2'), 0)])), (5, S('help'), 1), (5, S('help'), 3), (5, S('help'), 2), (2, S('Hilfe'), 0),
                         (5, S('Hilfe'), 1), (4, S('he'), 2), (4, S('h'), 4), (4, S('-h'), 4), (4, S('q'), 4), (4, S('help3'), 3)]), {'kind': 'repo-test-context'}))
     out.append((encode([(1, ([], [([99, 97, 102, 233], 0), (S('other'), 0)])), (4, S('caf'), 2), (4, S('caf'), 3), (4, [99, 97, 102, 233], 1)]), {'kind': 'known-highbyte'}))
+    # the parsers (DefaultContext::getOption): --he with help / heuristic is ambiguous through every entry point, allowUnregistered on and off;
+    # an exact name that is a prefix of others, a unique prefix, an alias name, an unknown key, the short spelling
+    ctx = [(1, (S('Basic'), [(S('help'), 104), (S('heuristic'), 0), (S('he-x'), 0)])), (1, (S('Other'), [(S('opt'), 0), (S('option'), 0), (S('number'), 110)])),
+           (2, S('num'), 5), (2, S('hilfe'), 0)]
+    for allow in (1, 0):
+        out.append((encode(ctx + [(7, S(k), 0, allow, e) for e in range(4) for k in ('he', 'h', 'opt', 'opti', 'nu', 'hi', 'hel', 'zz', 'op', 'heu', 'n')]
+                           + [(7, S(k), 1, allow, e) for e in range(4) for k in ('h', 'n', 'x')]), {'kind': 'parser-entry-points'}))
+    # several names within ONE parser run: alias x / unique prefix x (x-ray), alias v / exact name v, alias q / prefix of nothing
+    sq = [(1, (S('Demo'), [(S('foo'), 120), (S('x-ray'), 0), (S('verbose'), 118), (S('v'), 0), (S('silent'), 113)]))]
+    X, V, Q = S('x'), S('v'), S('q')
+    for allow in (0, 1):
+        out.append((encode(sq + [(8, tk, allow, e) for e in range(4) for tk in (
+            [(X, 1), (X, 0)], [(X, 0), (X, 1)], [(V, 1), (V, 0)], [(V, 0), (V, 1)], [(Q, 1), (Q, 0)], [(Q, 0), (Q, 1)],
+            [(X, 1), (S('sil'), 0), (X, 0)], [(X, 1), (X, 1), (X, 0), (X, 0), (X, 1)], [(X, 1), (S('x-'), 0), (X, 0), (S('ve'), 0)])]), {'kind': 'parser-sequence-same-key'}))
     return out
 
 
@@ -522,7 +780,7 @@ def mutate(case, rnd):
     for _ in range(4):
         t = list(ops)
         ns, al = all_names(t)
-        t += lookups(rnd, keys_for(rnd, ns, al, [97, 98, 110, 126], 10))
+        t += lookups(rnd, keys_for(rnd, ns, al, [97, 98, 110, 126], 10), 0.5)
         res.append(encode(t))
     return res
 
@@ -538,6 +796,16 @@ def shrink(case, fails):
                 ops = t
                 changed = True
         for i, o in enumerate(ops):
+            if o[0] == 8 and len(o[1]) > 1:
+                for j in range(len(o[1]) - 1, -1, -1):
+                    t = ops[:i] + [(8, o[1][:j] + o[1][j + 1:], o[2], o[3])] + ops[i + 1:]
+                    if fails(encode(t)):
+                        ops = t
+                        changed = True
+                        break
+                if changed:
+                    break
+        for i, o in enumerate(ops):
             if o[0] == 1 and len(o[1][1]) > 1:
                 for j in range(len(o[1][1]) - 1, -1, -1):
                     g = (o[1][0], o[1][1][:j] + o[1][1][j + 1:])
@@ -552,9 +820,11 @@ def shrink(case, fails):
 
 
 RULE = ('cases = (a sequence of add(group) / addAlias / add(context) calls building an OptionContext through the real API, interleaved with and followed by '
-        '8-30 find / tryFind / findImpl(eMask) calls); generators: names over {a,b} sharing prefixes, chains of names that are prefixes of each other, names ending '
+        '8-30 find / tryFind / findImpl(eMask) calls and lookups through the real parser entry points parseCommandLine / parseCommandArray / parseCommandString / '
+        'parseCfgFile (DefaultContext::getOption; --key=1, -c1, "key = 1"; allowUnregistered on and off)); generators: names over {a,b} sharing prefixes, chains of names that are prefixes of each other, names ending '
         'in bytes 0x01/0x7d/0x7e next to the CHAR_MAX sentinel, alias and name clashes across groups (refusals, then lookups), merged captions and merged contexts, '
-        'alias names sharing a prefix with their own option, names containing "-", and (correspondence only) bytes >= 0x7f; keys = names, proper prefixes, '
+        'alias names sharing a prefix with their own option, names containing "-", program-like names (help / heuristic / he, opt / option / options) looked up '
+        'through the parsers with ambiguous prefixes, prefixes of nothing, exact names that are prefixes of others and alias names, and (correspondence only) bytes >= 0x7f; keys = names, proper prefixes, '
         'extensions, neighbours in sort order, alias characters with and without "-"; non-trivial = at least two options declared and at least one lookup; '
         'distinct = distinct case tuples')
 TRUSTED_BASE = ['std::map<std::string,size_t> (ordering, insert, erase, lower_bound, upper_bound) modelled as a strictly sorted association list with linear-scan bounds',
@@ -567,8 +837,9 @@ ASSUMPTIONS = ['option names and alias names: non-empty, bytes 1..126, not start
                'names without newline (the harness reads the candidates from the AmbiguousOption message)']
 LEVEL_TEXT = ('Machine-checked proof (Coq): for every context reachable through add(group)/addAlias/add(context) (including refused calls) and every key in the claim, '
               'findImpl/find/tryFind/getOption of the model return exactly the unique matching option, Unknown iff no option matches, Ambiguous with exactly the matching '
-              'options as candidates iff several do; the [lower_bound k, upper_bound k.0x7f) range is exactly the set of index entries with prefix k; additions are refused '
-              'iff a key is taken and leave the index unchanged. Model tied to the code by differential correspondence incl. a dump of the private index.')
+              'options as candidates iff several do - an ambiguous key is ambiguous in every lookup mode and through every parser entry point, with allowUnregistered on and off; '
+              'the [lower_bound k, upper_bound k.0x7f) range is exactly the set of index entries with prefix k; additions are refused '
+              'iff a key is taken and leave the index unchanged. Model tied to the code by differential correspondence incl. a dump of the private index and lookups through the four real parser entry points.')
 LEVEL_NOTE = ('Trusted: Coq kernel, extraction+driver (sample cross-checked by vm_compute), harness, translator; std::map modelled; names/keys over bytes 1..126.')
 TECHNIQUE = 'Coq proof about an executable model of the sorted index + differential correspondence with the implementation'
 DESIGN_REF = 'DESIGN.md section 5, C14'
